@@ -25,7 +25,38 @@ func VerifC04_v7_aliases() {
 	body.Lvl = &three
 	var q wireInt
 	qAbsent, keyInvalid := true, false
-	switch nondetChoice("focus", 7) {
+	slug, rev := "OK", wireInt{kind: wNumber, v: 2, raw: "2"}
+	switch nondetChoice("focus", 10) {
+	case 7: // nested user type whose only validation is on primitive array elements
+		t := nondetStringUpTo("tag", 4)
+		for j := 0; j < len(t); j++ {
+			verifAssume(t[j] < 0x80)
+		}
+		bag := &server.TagBagRequestBody{Tags: []string{t}}
+		if nondetBool("in-array") {
+			body.Bags = []*server.TagBagRequestBody{bag}
+		} else {
+			body.Bag = bag
+		}
+		if len(t) > 3 {
+			rules["invalid_length"] = true
+		}
+	case 8: // path parameter typed by a string alias with a pattern
+		slug = nondetString("slug", 2)
+		for j := 0; j < len(slug); j++ {
+			verifAssume(slug[j] < 0x80 && slug[j] != '/')
+		}
+		verifMode("ascii-input")
+		if !verifCodePat.MatchString(slug) {
+			rules["invalid_pattern"] = true
+		}
+	case 9: // path parameter typed by an integer alias with a range
+		rev = newWireInt("rev", false)
+		if rev.kind == wJunk {
+			rules["invalid_field_type"] = true
+		} else if rev.v < 1 || rev.v > 9 {
+			rules["invalid_range"] = true
+		}
 	case 6: // alias attribute with validations of its own, and a plain sibling
 		if nondetBool("base-set") {
 			bases := []string{"AB", "CD", "ab", "EF", "A"}
@@ -133,7 +164,7 @@ func VerifC04_v7_aliases() {
 		return stubDecoder{func(v any) error { *(v.(*server.AliasesRequestBody)) = *body; return nil }}
 	}
 	w := newRecWriter()
-	server.NewAliasesHandler(endpoint, &stubMux{}, dec, recEncoder(), nil, nil).ServeHTTP(w, newRequest("POST", query))
+	server.NewAliasesHandler(endpoint, &stubMux{vars: map[string]string{"slug": slug, "rev": rev.raw}}, dec, recEncoder(), nil, nil).ServeHTTP(w, newRequest("POST", query))
 	ran := called == 1
 	verifAssert("endpoint-runs-iff-request-valid", ran == (len(rules) == 0))
 	if !ran {
@@ -144,7 +175,12 @@ func VerifC04_v7_aliases() {
 		verifAssert("accepted:codes", len(got.Codes) == len(body.Codes))
 		verifAssert("accepted:qty", (got.Qty == nil) == qAbsent && (got.Qty == nil || int64(*got.Qty) == q.v))
 	}
-	parts := map[string]any{"body": body}
+	parts := map[string]any{"body": body, "path:slug": slug}
+	if rev.kind == wNumber {
+		parts["path:rev"] = rev.v
+	} else {
+		parts["path:rev"] = rev.raw
+	}
 	if !qAbsent {
 		if q.kind == wNumber {
 			parts["query:qty"] = q.v
@@ -152,7 +188,7 @@ func VerifC04_v7_aliases() {
 			parts["query:qty"] = q.raw
 		}
 	}
-	specOK := verifSchemaAccepts(openapiDoc, "POST /aliases", parts)
+	specOK := verifSchemaAccepts(openapiDoc, "POST /aliases/{slug}/{rev}", parts)
 	if keyInvalid {
 		// known: validations of map keys have no counterpart in the schema
 		verifAssert("openapi:schema-accepts-iff-server-accepts[map-key-validation-not-in-schema]", specOK == ran)
